@@ -112,7 +112,7 @@ impl ScannerImpl {
         for (i, scanner_mode) in self.scanner_modes.iter().enumerate() {
             debug!("Compiled DFA: Mode {} \n{}", i, {
                 let mut cursor = std::io::Cursor::new(Vec::new());
-                let title = format!("Compiled DFA {}", scanner_mode.name);
+                let title = format!("Compiled DFA {}", scanner_mode.name.escape_default());
                 super::dot::compiled_dfa_render(
                     &scanner_mode.dfa,
                     &title,
@@ -138,7 +138,7 @@ impl ScannerImpl {
     ) -> crate::Result<()> {
         use std::fs::File;
         for scanner_mode in self.scanner_modes.iter() {
-            let title = format!("Compiled DFA {}", scanner_mode.name);
+            let title = format!("Compiled DFA {}", scanner_mode.name.escape_default());
             let file_name = target_folder.join(format!("{}_{}.dot", prefix, scanner_mode.name));
             let mut file = File::create(file_name)?;
             super::dot::compiled_dfa_render(
